@@ -17,7 +17,7 @@ import (
 	"verif/internal/model"
 )
 
-const rule = "cases: (entry point, type argument, bytes w) from the same three sources as C01 (model encodings, structure-aware mutations, arbitrary bytes) over all 43 entry points, x 5 appended strings per accepted w (one zero byte, 0xff, a copy of w's own head, 7 and 300 pseudo-random bytes) x every cut point k < len(w) when w was consumed completely (all k for len(w) <= 1200; otherwise the last 600, every 37th, and +-1 around each 64-byte boundary). Oracles: remainder is literally a suffix of the input; consumed extent equals the independent model's extent whenever the model decodes w; parse(w++x) accepted with the same consumed count and the same serialisation; parse(w[:k]) not accepted. Non-trivial: w accepted; distinct by (entry, type, w)."
+const rule = "cases: (entry point, type argument, bytes w) from the same three sources as C01 (model encodings, structure-aware mutations, arbitrary bytes) over all 43 entry points, x 5 appended strings per accepted w (one zero byte, 0xff, a copy of w's own head, 7 and 300 pseudo-random bytes; for one w in sixteen also ~2^16 or ~2^17 pseudo-random and zero bytes) x every cut point k < len(w) when w was consumed completely (all k for len(w) <= 1200; otherwise the last 600, every 37th, and +-1 around each 64-byte boundary). Oracles: remainder is literally a suffix of the input; consumed extent equals the independent model's extent whenever the model decodes w; parse(w++x) accepted with the same consumed count and the same serialisation; parse(w[:k]) not accepted. In addition the fixed corpus of well-formed encodings of every entry point is parsed by 16 goroutines at once and must frame exactly as it does alone. Non-trivial: w accepted; distinct by (entry, type, w)."
 
 func TestMain(m *testing.M) { ev.Main(m, "C03", rule) }
 
@@ -102,7 +102,14 @@ func check(c Case, r *ev.Rec) error {
 		if len(head) > 48 {
 			head = head[:48]
 		}
-		for i, x := range [][]byte{{0}, {0xff}, head, model.Fill(7, uint64(len(in))+3), model.Fill(300, uint64(len(in))+5)} {
+		appended := [][]byte{{0}, {0xff}, head, model.Fill(7, uint64(len(in))+3), model.Fill(300, uint64(len(in))+5)}
+		if sum := ev.Sum64(in); sum%16 == 0 {
+			// what follows a structure in a stream can be long: lengths around 2^16 and 2^17
+			n := []int{65532, 65533, 65535, 65536, 65537, 70000, 131072, 131073}[(sum/16)%8]
+			appended = append(appended, model.Fill(n-len(in)%7, sum), make([]byte, n))
+			r.Class("long-suffix")
+		}
+		for i, x := range appended {
 			if len(x) == 0 {
 				continue
 			}
@@ -152,6 +159,73 @@ func check(c Case, r *ev.Rec) error {
 	}
 	r.NonTrivial(c, []byte(e.Name), []byte{byte(c.Typ), byte(c.Typ >> 8)}, in)
 	return nil
+}
+
+// TestConcurrentFraming: the framing of one input does not depend on what other
+// goroutines parse at the same time. The fixed corpus of well-formed encodings of
+// every entry point (plus each with 9 appended bytes) is parsed sequentially, then
+// by 16 goroutines at once, each in its own order, 12 rounds; acceptance, consumed
+// count and serialisation must be those of the sequential run.
+func TestConcurrentFraming(t *testing.T) {
+	ev.Enumerate(t, "fixed-corpus-parsed-by-16-goroutines", false, func(_, _ int, r *ev.Rec) error {
+		type item struct {
+			e   *lib.Entry
+			in  []byte
+			typ int
+			acc bool
+			rem int
+			ser []byte
+		}
+		var items []item
+		for _, n := range lib.Names() {
+			e := lib.ByName(n)
+			for _, fi := range gen.FixedInputs(n) {
+				for _, sfx := range [][]byte{nil, model.Fill(9, 4)} {
+					if e.Exact && sfx != nil {
+						continue
+					}
+					in := append(append([]byte{}, fi.Bytes()...), sfx...)
+					res := e.Parse(append([]byte{}, in...), fi.Typ)
+					items = append(items, item{e, in, fi.Typ, res.Accepted, len(res.Rem), res.Serial})
+				}
+			}
+		}
+		if len(items) < 60 {
+			return fmt.Errorf("corpus too small (%d)", len(items))
+		}
+		const G = 16
+		errs := make(chan error, G)
+		start := make(chan struct{})
+		for g := 0; g < G; g++ {
+			go func(g int) {
+				<-start
+				for round := 0; round < 12; round++ {
+					for k := range items {
+						it := items[(k*(2*g+1)+g+round)%len(items)]
+						res := it.e.Parse(append([]byte{}, it.in...), it.typ)
+						if res.Accepted != it.acc || len(res.Rem) != it.rem || !bytes.Equal(res.Serial, it.ser) {
+							errs <- fmt.Errorf("%s on a %d-byte input: alone accepted=%v remainder=%d; while 15 other goroutines parse other data accepted=%v remainder=%d (err %v)", it.e.Name, len(it.in), it.acc, it.rem, res.Accepted, len(res.Rem), res.Err)
+							return
+						}
+					}
+				}
+				errs <- nil
+			}(g)
+		}
+		close(start)
+		var first error
+		for g := 0; g < G; g++ {
+			if err := <-errs; err != nil && first == nil {
+				first = err
+			}
+		}
+		r.EvalN(G * 12 * len(items))
+		if first != nil {
+			return first
+		}
+		r.Class("concurrent-framing-rounds")
+		return nil
+	})
 }
 
 var weighted = lib.WeightedNames()
